@@ -20,14 +20,14 @@ Definition enum_rel (tbl : list str) (dn : option str) (sv : option N) : Prop :=
 Definition vp_ok (o : option vprefs) : Prop :=
   match o with Some vp => vp_readable vp = true | None => True end.
 
-Record Rel (strict : bool) (d : doc) (s : store) : Prop := {
+Record Rel (d : doc) (s : store) : Prop := {
   r_ver : d_ver d = 17 /\ s_ver s = 17;
   r_kw : kw_rel (d_kw d) (s_kw s);
   r_kws : ssorted (s_kw s);
   r_kww : Forall (fun k => wfk k = true) (s_kw s);
   r_pr : d_info d = s_pr s;
   r_prs : msorted (s_pr s);
-  r_prg : Forall (good_entry strict) (s_pr s);
+  r_prg : Forall good_entry (s_pr s);
   r_pl : enum_rel pl_names (d_pl d) (s_pl s);
   r_pm : enum_rel pm_names (d_pm d) (s_pm s);
   r_vp : d_vp d = s_vp s;
@@ -35,23 +35,22 @@ Record Rel (strict : bool) (d : doc) (s : store) : Prop := {
   r_att : d_att d = s_att s
 }.
 
-Lemma rel_empty : forall strict, Rel strict (empty_doc 17) (empty_store 17).
+Lemma rel_empty : Rel (empty_doc 17) (empty_store 17).
 Proof.
-  intros strict. constructor; simpl; auto; try exact I; try constructor; auto.
+  constructor; simpl; auto; try exact I; try constructor; auto.
 Qed.
 
-Lemma kw_read_rel : forall d s strict, Rel strict d s -> kw_read d = s_kw s.
+Lemma kw_read_rel : forall d s, Rel d s -> kw_read d = s_kw s.
 Proof.
-  intros d s strict R. unfold kw_read. destruct (r_kw _ _ _ R) as [[E1 E2]|E].
+  intros d s R. unfold kw_read. destruct (r_kw _ _ R) as [[E1 E2]|E].
   - now rewrite E1, E2.
-  - rewrite E. apply kw_of_text_join; [apply (r_kws _ _ _ R)|apply (r_kww _ _ _ R)].
+  - rewrite E. apply kw_of_text_join; [apply (r_kws _ _ R)|apply (r_kww _ _ R)].
 Qed.
 
-Lemma readable_rel : forall d s strict, Rel strict d s -> readable d = true.
+Lemma readable_rel : forall d s, Rel d s -> readable d = true.
 Proof.
-  intros d s strict R. unfold readable.
-  rewrite (r_pr _ _ _ R), (props_read_id strict) by (apply R).
-  rewrite (r_vp _ _ _ R). pose proof (r_vpo _ _ _ R) as V. destruct (s_vp s); simpl in *; [now rewrite V|reflexivity].
+  intros d s R. unfold readable.
+  rewrite (r_vp _ _ R). pose proof (r_vpo _ _ R) as V. destruct (s_vp s); simpl in *; [now rewrite V|reflexivity].
 Qed.
 
 Lemma enum_roundtrip_pl : forall v, v < 6 -> enum_for pl_names (enum_name pl_names v) = Some v.
@@ -66,13 +65,13 @@ Proof.
 Qed.
 
 (* listing a related document shows exactly the store *)
-Lemma observe_rel : forall d s strict, Rel strict d s -> observe d = Some s.
+Lemma observe_rel : forall d s, Rel d s -> observe d = Some s.
 Proof.
-  intros d s strict R. unfold observe. rewrite (readable_rel _ _ _ R). simpl.
-  rewrite (r_pr _ _ _ R), (props_read_id strict) by (apply R).
-  rewrite (kw_read_rel _ _ _ R), (r_vp _ _ _ R), (r_att _ _ _ R).
-  destruct (r_ver _ _ _ R) as [V1 V2]. rewrite V1.
-  pose proof (r_pl _ _ _ R) as PL. pose proof (r_pm _ _ _ R) as PM.
+  intros d s R. unfold observe. rewrite (readable_rel _ _ R). simpl.
+  rewrite (r_pr _ _ R), props_read_id by (apply R).
+  rewrite (kw_read_rel _ _ R), (r_vp _ _ R), (r_att _ _ R).
+  destruct (r_ver _ _ R) as [V1 V2]. rewrite V1.
+  pose proof (r_pl _ _ R) as PL. pose proof (r_pm _ _ R) as PM.
   destruct s as [ver kw pr pl pm vp att]. simpl in *. subst ver.
   assert (X : match d_pl d with Some n => enum_for pl_names n | None => None end = pl).
   { destruct pl as [v|]; simpl in PL; [destruct PL as [-> Hv]; now apply enum_roundtrip_pl|now rewrite PL]. }
@@ -104,15 +103,15 @@ Proof.
 Qed.
 
 (* ---------------------------------------------------------------- one step *)
-Lemma persist_rel_info : forall strict (d : doc) i, msorted i -> Forall (good_entry strict) i ->
+Lemma persist_rel_info : forall (d : doc) i, msorted i -> Forall good_entry i ->
   d_info d = i -> d_info (persist d) = i.
-Proof. intros strict d i Hs Hg E. unfold persist. simpl. rewrite E. eapply persist_info_id; eauto. Qed.
+Proof. intros d i Hs Hg E. unfold persist. simpl. rewrite E. eapply persist_info_id; eauto. Qed.
 
 Ltac rel_fields R :=
-  pose proof (r_ver _ _ _ R) as Rver; pose proof (r_kw _ _ _ R) as Rkw; pose proof (r_kws _ _ _ R) as Rkws;
-  pose proof (r_kww _ _ _ R) as Rkww; pose proof (r_pr _ _ _ R) as Rpr; pose proof (r_prs _ _ _ R) as Rprs;
-  pose proof (r_prg _ _ _ R) as Rprg; pose proof (r_pl _ _ _ R) as Rpl; pose proof (r_pm _ _ _ R) as Rpm;
-  pose proof (r_vp _ _ _ R) as Rvp; pose proof (r_vpo _ _ _ R) as Rvpo; pose proof (r_att _ _ _ R) as Ratt.
+  pose proof (r_ver _ _ R) as Rver; pose proof (r_kw _ _ R) as Rkw; pose proof (r_kws _ _ R) as Rkws;
+  pose proof (r_kww _ _ R) as Rkww; pose proof (r_pr _ _ R) as Rpr; pose proof (r_prs _ _ R) as Rprs;
+  pose proof (r_prg _ _ R) as Rprg; pose proof (r_pl _ _ R) as Rpl; pose proof (r_pm _ _ R) as Rpm;
+  pose proof (r_vp _ _ R) as Rvp; pose proof (r_vpo _ _ R) as Rvpo; pose proof (r_att _ _ R) as Ratt.
 
 Lemma ver17 : forall v, v = 17 -> (if v =? 20 then 20 else 17) = 17.
 Proof. intros v ->. reflexivity. Qed.
@@ -122,10 +121,10 @@ Ltac finish_simple :=
   constructor; simpl; try rewrite ver17 by tauto; auto;
   try (erewrite persist_info_id; eauto; congruence).
 
-Lemma padd_good : forall strict kvs, padd_valid kvs = true ->
-  forallb (fun kv => wfname strict (fst kv)) kvs = true -> Forall (good_entry strict) kvs.
+Lemma padd_good : forall kvs, padd_valid kvs = true ->
+  forallb (fun kv => wfname (fst kv)) kvs = true -> Forall good_entry kvs.
 Proof.
-  intros strict kvs Hv Hw. apply Forall_forall. intros [k v] Hin.
+  intros kvs Hv Hw. apply Forall_forall. intros [k v] Hin.
   unfold padd_valid in Hv. rewrite forallb_forall in Hv, Hw. specialize (Hv _ Hin). specialize (Hw _ Hin). simpl in *.
   split; simpl; [assumption|]. apply andb_true_iff in Hv as [_ Hb]. apply negb_true_iff in Hb.
   intros ->. discriminate.
@@ -157,16 +156,16 @@ Ltac fin :=
   try solve [ assumption | auto | exact I | constructor | now left | now right
             | (match goal with H : d_info _ = _ |- _ => rewrite H end; eapply persist_info_id; eauto) ].
 
-Lemma step_rel : forall strict d s o, Rel strict d s -> wf_op strict o = true -> fresh_op s o ->
-  Rel strict (fst (step d o)) (astep s o).
+Lemma step_rel : forall d s o, Rel d s -> wf_op o = true -> fresh_op s o ->
+  Rel (fst (step d o)) (astep s o).
 Proof.
-  intros strict d s o R W F. unfold step. rewrite (readable_rel _ _ _ R). simpl.
+  intros d s o R W F. unfold step. rewrite (readable_rel _ _ R). simpl.
   rel_fields R.
   destruct s as [ver kw pr pl pm vp att]. simpl in *. destruct Rver as [Vd Vs]. subst ver.
   destruct o as [ks|ks|kvs|ks|v| |v| |new| |id data|ids]; simpl in W.
   - (* KAdd *)
     rewrite (wfk_not_blank _ W). simpl.
-    rewrite (kw_read_rel _ _ _ R). simpl. rewrite (fold_ins_trim_wf _ _ W).
+    rewrite (kw_read_rel _ _ R). simpl. rewrite (fold_ins_trim_wf _ _ W).
     assert (Wf : Forall (fun k => wfk k = true) ks) by (apply Forall_forall; now apply forallb_forall).
     fin.
     + now apply fold_ins_sorted.
@@ -177,7 +176,7 @@ Proof.
       * fin.
       * destruct Rkw as [[_ ->]|Rkw]; [|discriminate].
         fin.
-    + rewrite (wfk_not_blank _ W). rewrite (map_trim_wf _ W). rewrite (kw_read_rel _ _ _ R). simpl s_kw.
+    + rewrite (wfk_not_blank _ W). rewrite (map_trim_wf _ W). rewrite (kw_read_rel _ _ R). simpl s_kw.
       cbv beta iota. remember (k :: ks') as ks eqn:Eks.
       destruct (existsb (fun k0 => smem k0 ks) kw) eqn:Ex; simpl.
       * fin.
@@ -186,26 +185,24 @@ Proof.
       * rewrite (filter_none_present _ _ Ex). fin.
   - (* PAdd *)
     destruct (padd_valid kvs) eqn:Pv; simpl.
-    + pose proof (padd_good _ _ Pv W) as G.
+    + pose proof (padd_good _ Pv W) as G.
       assert (S1 : msorted (fold_left (fun m kv => m_set (fst kv) (snd kv) m) kvs pr)) by now apply fold_set_sorted.
-      assert (G1 : Forall (good_entry strict) (fold_left (fun m kv => m_set (fst kv) (snd kv) m) kvs pr)).
+      assert (G1 : Forall good_entry (fold_left (fun m kv => m_set (fst kv) (snd kv) m) kvs pr)).
       { apply fold_set_Forall; [|assumption]. eapply Forall_impl; [|exact G]. intros [a b] Hab. exact Hab. }
       fin.
     + fin.
   - (* PRemove *)
     destruct ks as [|k ks'].
-    + (* remove all: strict *)
-      subst strict. rewrite Rpr. rewrite (props_read_id true) by assumption.
+    + (* remove all *)
+      rewrite Rpr. rewrite props_read_id by assumption.
       destruct pr as [|e pr'].
       * fin.
-      * assert (Rg : Forall (fun e0 => regular_name (fst e0) = true) (e :: pr')).
-        { eapply Forall_impl; [|exact Rprg]. intros a [Ha _]. apply wfname_spec in Ha as [_ [_ Ha]]. now apply Ha. }
-        cbv beta iota. rewrite (remove_all_regular _ Rg). fin.
+      * cbv beta iota. pose proof (remove_all_props (e :: pr')) as RA. cbn [fold_left] in RA. rewrite RA. fin.
     + cbv beta iota. remember (k :: ks') as ks eqn:Eks.
       destruct (prem_valid ks) eqn:Pv; simpl; [|fin].
       rewrite Rpr. destruct (existsb (fun k0 => m_mem k0 pr) ks) eqn:Ex; simpl.
       * assert (S1 : msorted (fold_left (fun m k0 => m_del k0 m) ks pr)) by now apply fold_del_sorted.
-        assert (G1 : Forall (good_entry strict) (fold_left (fun m k0 => m_del k0 m) ks pr)) by now apply fold_del_Forall.
+        assert (G1 : Forall good_entry (fold_left (fun m k0 => m_del k0 m) ks pr)) by now apply fold_del_Forall.
         fin. eapply persist_info_id; eauto.
       * rewrite (fold_del_absent _ _ Ex). fin.
   - (* LSet *)
